@@ -458,6 +458,7 @@ def seq_drain(ex, st, callee, args):
     lo, hi = (rng[0], rng[1]) if isinstance(rng, list) and len(rng) == 2 else (None, None)
     if lo is None and isinstance(rng, list) and len(rng) == 1 and 'RangeTo<' in callee: lo, hi = BitVecVal(0, 64), rng[0]
     if lo is None and isinstance(rng, list) and len(rng) == 1 and 'RangeFrom<' in callee: lo, hi = rng[0], BitVecVal(n, 64)
+    if lo is None and 'RangeFull' in callee: lo, hi = BitVecVal(0, 64), BitVecVal(n, 64)       # drain(..): everything
     if lo is None: raise Unsupported('drain range %r' % (rng,))
     okc = And(ULE(lo, hi), ULE(hi, n))
     st.path.oblige('no panic: drain range within the sequence', okc, callee); st.path.assume(okc)
